@@ -45,6 +45,7 @@ def tensor_cases(draw, tier="quick"):
     elif pk == "full":
         prior = [[draw(st.integers(1, 5)) for _ in range(m)] for _ in range(n)]
     return {"mdp": spec, "R": R, "w": w, "prior": prior, "force_nonzero": draw(st.booleans()),
+            "warm_start": draw(st.one_of(st.none(), st.none(), st.integers(0, 11))),
             "iters": draw(st.sampled_from([2000, 2000, 2000, 1, 2, 3, 5]))}
 
 
@@ -90,10 +91,20 @@ def check_fixed_point(ctx, tag, T, R, gamma, w_vec, w_scalar_f32, pi0, pi, q, v,
     return sm
 
 
-def run_tensor(ctx, T, R, gamma, w, prior, force_nonzero, tag, iters=2000):
+def run_tensor(ctx, T, R, gamma, w, prior, force_nonzero, tag, iters=2000, warm=None):
     import torch
     from msdm.algorithms.entregpolicyiteration import entropy_regularized_policy_iteration
     kw = {}
+    if warm is not None:
+        # a caller-supplied starting policy: deterministic (one action per state) or spread over a subset of the actions
+        n_, m_ = T.shape[0], T.shape[1]
+        ip = np.zeros((n_, m_))
+        for s_ in range(n_):
+            k_ = (warm + s_) % m_
+            ip[s_, k_] = 1.0
+            if warm % 3 == 0 and m_ >= 2:
+                ip[s_, (k_ + 1) % m_] = 1.0
+        kw["initial_policy"] = torch.from_numpy(ip / ip.sum(1, keepdims=True))
     if prior is not None:
         p = np.array(prior, dtype=float)
         p = p / p.sum(1, keepdims=True)
@@ -114,7 +125,10 @@ def prop_tensor(case, ctx):
     Rb = np.array(case["R"], dtype=float)
     R = np.broadcast_to(Rb, (n, m, n)).copy()
     w = case["w"]
-    res = run_tensor(ctx, T, case["R"], gamma, w, case["prior"], case["force_nonzero"], "tensor", iters=case.get("iters", 2000))
+    res = run_tensor(ctx, T, case["R"], gamma, w, case["prior"], case["force_nonzero"], "tensor", iters=case.get("iters", 2000),
+                     warm=case.get("warm_start"))
+    if case.get("warm_start") is not None:
+        ctx.event("warm_start_with_zero_entries")
     if case.get("iters", 2000) < 10:
         ctx.event("tiny_iteration_budget" + ("_reports_converged" if res.converged else ""))
     if not res.converged:
